@@ -11,7 +11,7 @@ for line in open(os.path.join(ROOT, "seeded", "RESULTS.tsv")).read().splitlines(
     ch, ck, tier, r = line.split("\t")
     res.setdefault(ch, []).append((ck, r))
 rows = ["| change | site | caught by (quick tier) |", "|---|---|---|"]
-for mf in sorted(glob.glob(os.path.join(ROOT, "seeded", "*", "meta.json")) + glob.glob(os.path.join(ROOT, "seeded", "*", "r2", "meta.json"))):
+for mf in sorted(glob.glob(os.path.join(ROOT, "seeded", "*", "meta.json")) + glob.glob(os.path.join(ROOT, "seeded", "*", "r2", "meta.json")) + glob.glob(os.path.join(ROOT, "seeded", "*", "r3", "meta.json"))):
     d = os.path.relpath(os.path.dirname(mf), os.path.join(ROOT, "seeded"))
     m = json.load(open(mf))
     for c in m["changes"]:
@@ -22,6 +22,8 @@ for mf in sorted(glob.glob(os.path.join(ROOT, "seeded", "*", "meta.json")) + glo
             continue
         r = res.get(key, [])
         txt = ", ".join(f"{ck}" + ("" if ok == "caught" else " (MISSED)") for ck, ok in r) or "not run"
+        if c.get("not_caught"):
+            txt = "**" + c["not_caught"] + "**"
         if c.get("check_strengthened_first"):
             txt += " — after strengthening: " + c["check_strengthened_first"]
         rows.append(f"| {d}/{c['patch'][:-5]} | {files} | {txt} |")
